@@ -356,3 +356,21 @@ func Summary(test string, n, nt int, classes map[string]int, samples []interface
 	}
 	logf.Write(append(b, '\n'))
 }
+
+// Confirmed wraps a whole-core check whose verdict depends on real time: a violation is reported only if a
+// second execution of the same case reports one too (crashes and race reports of the core are never retried).
+func Confirmed[C any](run func(C) Result) func(C) Result {
+	return func(c C) Result {
+		r := run(c)
+		if r.Violation == "" || strings.HasPrefix(r.Signature, "core-crash") || strings.HasPrefix(r.Signature, "data-race") {
+			return r
+		}
+		r2 := run(c)
+		if r2.Violation == "" {
+			r2.Inconclusive = "a violation was reported by the first execution and not by the second: " + r.Violation
+			r2.Classes = append(r2.Classes, "unconfirmed-violation")
+			return r2
+		}
+		return r2
+	}
+}
